@@ -197,6 +197,29 @@ def try_fold(node, env=None, ctors=(), default=None):
         return default
 
 
+class EnumVal:
+    """member of a plain Enum class: always truthy, equal to the members of the same class that have the same value (aliases)"""
+    __slots__ = ("cls", "name", "value")
+
+    def __init__(self, cls, name, value):
+        self.cls, self.name, self.value = cls, name, value
+
+    def __eq__(self, o):
+        return isinstance(o, EnumVal) and o.cls == self.cls and o.value == self.value
+
+    def __ne__(self, o):
+        return not self.__eq__(o)
+
+    def __hash__(self):
+        return hash((self.cls, repr(self.value)))
+
+    def __bool__(self):
+        return True
+
+    def __repr__(self):
+        return "%s.%s" % (self.cls, self.name)
+
+
 def module_env(repo):
     """All foldable module-level and class-level constants of the repository, by bare name and Class.NAME."""
     env = {}
@@ -228,6 +251,8 @@ def module_env(repo):
                         v = fold(val, local)
                     except NotConst:
                         continue
+                    if [b.split(".")[-1] for b in c.bases] == ["Enum"] and not name.startswith("_") and not isinstance(v, EnumVal):
+                        v = EnumVal(c.name, name, v)
                     env[k] = v
                     progress = True
     return env
